@@ -416,6 +416,16 @@ class Obj:
         return ItemRef(self.f, name, "%s.%s" % (self.tname, name))
 
 
+class Pack:
+    """a function parameter pack bound to the remaining arguments"""
+
+    def __init__(self, items):
+        self.items = list(items)
+
+    def show(self):
+        return "pack(%s)" % ", ".join(show_val(x.get() if is_ref(x) else x) for x in self.items)
+
+
 class Closure:
     def __init__(self, node, env, this):
         self.node, self.env, self.this = node, env, this
@@ -619,11 +629,72 @@ class Machine:
             return Vec([self.copyval(self.ev(x, env)) for x in e[1]], "initializer list")
         if t == "ctor":
             return self.construct(e[1], e[2], env)
+        if t == "fold":
+            return self.fold(e, env)
+        if t == "pack":
+            raise Unab("pack expansion outside an argument list")
         if t == "default":
             raise Unab("default argument")
         if t == "other":
             return self.other(e, env)
         raise Unab("expression form %s (%s)" % (t, A.show(e)[:60]))
+
+    def pack_names(self, e, env):
+        out = []
+        for nm in sorted(A.refs(e)):
+            r = env.find(nm) if nm else None
+            if r is not None and isinstance(self.rv(r), Pack):
+                out.append(nm)
+        return out
+
+    def expand(self, e, env):
+        """environments for the elements of the parameter packs referenced by e"""
+        names = self.pack_names(e, env)
+        if not names:
+            raise Unab("pack expansion without a parameter pack")
+        packs = [self.rv(env.find(n)) for n in names]
+        n = len(packs[0].items)
+        if any(len(p.items) != n for p in packs):
+            raise Unab("parameter packs of different lengths")
+        envs = []
+        for i in range(n):
+            sub = Env(env)
+            for nm, p in zip(names, packs):
+                sub.bind(nm, p.items[i])
+            envs.append(sub)
+        return envs
+
+    def fold(self, e, env):
+        op, subs = e[1], e[2]
+        if len(subs) != 1:
+            raise Unab("fold expression with an init operand")
+        vals = [self.ev(subs[0], sub) for sub in self.expand(subs[0], env)]
+        if op == ",":
+            return vals[-1] if vals else None
+        if not vals:
+            if op == "&&":
+                return True
+            if op == "||":
+                return False
+            raise Unab("empty fold over %s" % op)
+        acc = self.rv(vals[0])
+        for v in vals[1:]:
+            v = self.rv(v)
+            if op in ("&&", "||"):
+                acc = (self.truth(acc) and self.truth(v)) if op == "&&" else (self.truth(acc) or self.truth(v))
+            else:
+                acc = self.arith(op, acc, v)
+        return acc
+
+    def args_values(self, args, env):
+        """argument values of a call, expanding `expr...`"""
+        out = []
+        for a in args:
+            if a[0] == "pack":
+                out += [self.ev(a[1], sub) for sub in self.expand(a[1], env)]
+            else:
+                out.append(self.ev(a, env))
+        return out
 
     def other(self, e, env):
         kind, text = e[1], e[2]
@@ -944,18 +1015,25 @@ class Machine:
         if isinstance(f, PyFunc):
             if f.lazy:
                 return f.f(self, argexprs if argexprs is not None else argvals, env, name)
-            vals = argvals if argvals is not None else [self.ev(a, env) for a in argexprs]
+            vals = argvals if argvals is not None else self.args_values(argexprs, env)
             return f.f(self, [self.rv(v) for v in vals])
         if isinstance(f, Closure):
-            vals = argvals if argvals is not None else [self.ev(a, env) for a in argexprs]
+            vals = argvals if argvals is not None else self.args_values(argexprs, env)
             return self.run_lambda(f, vals)
         if hasattr(f, "call"):
-            vals = argvals if argvals is not None else [self.ev(a, env) for a in argexprs]
+            vals = argvals if argvals is not None else self.args_values(argexprs, env)
             return f.call(self, vals)
         raise Unab("call of a non-function %s" % show_val(f))
 
     def bind_params(self, params, vals, new, what):
         ps = [p for p in params]
+        if ps and "..." in ps[-1].get("type", {}).get("qualType", ""):
+            # trailing parameter pack: bound to all remaining arguments
+            head, pack = ps[:-1], ps[-1]
+            rest = vals[len(head):]
+            vals = list(vals[:len(head)])
+            new.bind(pack.get("name"), Cell(Pack([v if (is_ref(v) or isinstance(v, OptValue)) else Cell(self.copyval(v)) for v in rest])))
+            ps = head
         if len(vals) > len(ps):
             raise Unab("%s called with %d arguments, %d parameters" % (what, len(vals), len(ps)))
         for i, p in enumerate(ps):
@@ -1029,7 +1107,7 @@ class Machine:
             else:
                 raise Unab("call of %s resolves to %d bodies" % (full, len(cands)))
         d = cands[0]
-        vals = [self.ev(a, env) for a in args]
+        vals = self.args_values(args, env)
         return self.run_function(d, vals, this=this, full=full, caller_env=env)
 
     def run_function(self, d, vals, this=None, full=None, genv=None, caller_env=None):
@@ -1065,7 +1143,7 @@ class Machine:
             cands = [d for d in self.decls[meth] if A.body(d.node) is not None and d.qname.split("::")[-2:-1] == [base.tname]
                      and len(A.params(d.node)) >= len(args) and sum(1 for p in A.params(d.node) if not A.kids(p)) <= len(args)]
             if len(cands) == 1:
-                return self.run_function(cands[0], [self.ev(a, env) for a in args], this=base)
+                return self.run_function(cands[0], self.args_values(args, env), this=base)
         if meth == "operator()" or meth == "operator[]":
             return self.index(base, [self.eval(a, env) for a in args])
         h = getattr(base, "m_" + meth, None)
@@ -1074,15 +1152,15 @@ class Machine:
             lazy = getattr(h, "lazy", False)
             if lazy:
                 return h(self, args, targs, env)
-            return h(self, [self.rv(self.ev(a, env)) if not getattr(h, "refs", False) else self.ev(a, env) for a in args], targs)
+            return h(self, [self.rv(v) if not getattr(h, "refs", False) else v for v in self.args_values(args, env)], targs)
         g = self.funcs.get("method:" + meth)
         if g is not None:
-            return g.f(self, o, [self.ev(a, env) for a in args], targs, env)
+            return g.f(self, o, self.args_values(args, env), targs, env)
         if isinstance(base, Obj) and meth in self.decls:
             cands = [d for d in self.decls[meth] if A.body(d.node) is not None and d.qname.split("::")[-2:-1] == [base.tname]
                      and len(A.params(d.node)) >= len(args)]
             if len(cands) == 1:
-                return self.run_function(cands[0], [self.ev(a, env) for a in args], this=base)
+                return self.run_function(cands[0], self.args_values(args, env), this=base)
         if is_num(base):
             if meth in ("eval", "value", "derived"):
                 return base
@@ -1642,10 +1720,14 @@ def _make_pair(M, *a):
 
 
 def _get(M, args, env, name):
-    m = re.search(r"get<(\d+)>", name or "")
+    m = re.search(r"get<(\w+)>", name or "")
     v = M.eval(args[0], env)
     if m and isinstance(v, (Tup, Vec)):
-        return v.items[int(m.group(1))]
+        k = m.group(1)
+        i = int(k) if k.isdigit() else int(simp(M.eval(("ref", k, None), env)))
+        if not (0 <= i < len(v.items)):
+            raise AbstractViolation("std::get<%d> of a tuple of %d elements" % (i, len(v.items)))
+        return v.items[i] if isinstance(v, Tup) else ItemRef(v.items, i)
     raise Unab("std::get form %s" % name)
 
 
